@@ -3,6 +3,7 @@ no store error dropped by write operators, MERGE searches before it creates, dec
 merged property view."""
 from ..cfg import Body
 from ..report import where
+from .. import orderdom as od
 from ..facts import in_module
 from .c11 import dropped_results
 from .. import storerules as sr
@@ -27,6 +28,48 @@ def run(ctx, F, cg):
     sr.barrier_drains(ctx, F, cg, "R04e")
     ctx.rule("R04f", "a helper that resolves a pattern's property map returns, on every path, a map that received the content of each input property map (content flow that never passes through a scalar): MERGE matches and creates on all the properties written in the pattern")
     sr.map_inputs_reach_output(ctx, F, cg, "R04f")
+    ctx.rule("R04g", "MERGE decides per row from the store as it is now: in the relationship-MERGE operator the test that guards create_edge is made on the result of a store lookup (edge_between) issued for the current row — not on a value cached in the operator across rows, which goes stale as soon as an earlier row of the same statement has created the relationship")
+    mm = [r_ for p_, r_ in F.fns.items() if r_.get("trait") and r_["trait"].endswith("PhysicalOperator") and p_.endswith("::next_mut") and "Merge" in (r_.get("self") or "") and any(c.endswith("GraphStore::create_edge") for c in r_["calls"])]
+    ctx.floor("R04g", "MERGE operators that create relationships", len(mm), 1)
+    for r_ in mm:
+        b_ = Body(F.mir(r_["path"]), r_)
+        ctx.saw_fn(r_["path"]); ctx.saw_calls(len(b_.calls()))
+        short = r_["self"].rsplit("::", 1)[-1]
+        creates = [c for c in b_.calls() if c.path.endswith("GraphStore::create_edge")]
+        for k, c in enumerate(creates):
+            # the Option test that dominates the creation and whose None side reaches it
+            dec = None
+            for i in sorted(b_.live_blocks(), reverse=True):
+                t = b_.blocks[i]["t"]
+                if t[0] != "switch" or t[1][0] == "k" or not b_.dominates(i, c.bb):
+                    continue
+                ds = b_.defs().get(t[1][1][0], [])
+                if len(ds) == 1 and ds[0][0] == "stmt" and ds[0][4][0] == "discr" and b_.local_ty(ds[0][4][1][0]).startswith("std::option::Option<") and "EdgeId" in b_.local_ty(ds[0][4][1][0]) or (len(ds) == 1 and ds[0][0] == "stmt" and ds[0][4][0] == "discr" and "edge::Edge" in b_.local_ty(ds[0][4][1][0])):
+                    dec = (i, ds[0][4][1])
+                    break
+            inst = "%s|create_edge|%d" % (short, k)
+            if dec is None:
+                ctx.violation("R04g", inst + "|no-existence-test", where(r_, c.line), "%s creates a relationship without a dominating test of an existing one" % short)
+                continue
+            src = dec[1]
+            og = b_.origins(src[0], through_calls=lambda cc: [0] if cc.path.rsplit("::", 1)[-1] in ("branch", "cloned", "copied", "map", "and_then", "deref") else None)
+            lookups = [o[1] for o in og if o[0] == "call" and o[1].path.startswith("samyama::graph::store::GraphStore::")]
+            cached = [o[1] for o in og if o[0] == "call" and not o[1].path.startswith("samyama::graph::store::GraphStore::")]
+            fields = [f for o in og if o[0] == "call" for a in o[1].args[:1] if a[0] != "k" for f in od.chain_fields(b_, a, through=("deref", "deref_mut", "as_ref", "as_mut", "entry", "get", "get_mut", "borrow", "borrow_mut")) if short in f]
+            if lookups and not cached and not fields:
+                ctx.ok("R04g", inst, "guarded by the result of %s for this row" % lookups[0].path.rsplit("::", 1)[-1])
+            else:
+                what = ("a value obtained through %s" % cached[0].path.rsplit("::", 1)[-1]) if cached else ("operator state %s" % fields[:1])
+                ctx.violation("R04g", inst + "|decision-not-from-store", where(r_, c.line),
+                              "%s decides whether the relationship exists from %s instead of a store lookup made for this row: when two rows of one statement carry the same endpoints, the second still sees 'absent' and creates a duplicate" % (short, what))
+    ctx.rule("R04h", "no write operator turns an evaluation error into a value: a SET / CREATE / MERGE expression that fails (type error, division by zero) fails the statement; `Err(_) => Null` made `SET n.p = 1/0` succeed and remove the property (inventory shared with C35's R35f)")
+    from .c35 import error_discard_sites, SORT_KEY_SITES
+    bad_sites = [x for x in error_discard_sites(F) if not any(k_ in x[0] for k_ in SORT_KEY_SITES)]
+    if bad_sites:
+        for owner, callee, how, r_, line in bad_sites:
+            ctx.violation("R04h", "%s|%s|%s|evaluation-error-dropped" % (owner, callee, how), where(r_, line), "%s drops the error of an expression evaluation (%s): the statement succeeds with a null / default in place of the failed value" % (owner, how))
+    else:
+        ctx.ok("R04h", "no-dropped-evaluation-error", "no evaluation error is dropped outside the reviewed sort-key sites")
     ctx.rule("R04c", "decisions about existing nodes (MERGE match test, constraint backfill) read the merged property view, not Node.properties alone")
     # ---- R04a ------------------------------------------------------------------------------------------
     dn = [r for p, r in F.fns.items() if "DeleteOperator as" in p and p.endswith("::next_mut")]
@@ -44,7 +87,6 @@ def run(ctx, F, cg):
         for i in sorted(b.live_blocks()):
             t = b.blocks[i]["t"]
             if t[0] == "switch" and t[1][0] != "k":
-                from .. import orderdom as od
                 if any(f.endswith("DeleteOperator.detach") for f in od.chain_fields(b, t[1])):
                     det_sw.append((i, t))
         ctx.floor("R04a", "delete_node calls in DeleteOperator", len(dels), 1)
